@@ -1848,6 +1848,7 @@ namespace awkward {
 
     Index64 sliceindex = slicecontent.index();
     Index64 outoffsets(slicestarts.length() + 1);
+    outoffsets.setitem_at_nowrap(0, 0);
     Index64 nextcarry(carrylen);
     struct Error err2 = kernel::ListArray_getitem_jagged_apply_64<T>(
       kernel::lib::cpu,   // DERIVE
